@@ -238,14 +238,14 @@ Proof.
   destruct rest as [|nx rest']; [discriminate|].
   cbn [block_go] in H.
   destruct ((b =? 47) && (start <=? p)%nat && (nx =? 42)) eqn:C1.
-  - destruct (wrap_i32 (depth + 1) =? 0)%Z eqn:Z.
+  - destruct (wrap_usize (depth + 1) =? 0)%Z eqn:Z.
     + injection H as <-. exists O, nx. repeat split; [lia|lia].
-    + assert (Hd' : wrap_i32 (depth + 1) <> 0%Z) by lia. assert (Hp' : (2 <= S p)%nat) by lia.
+    + assert (Hd' : wrap_usize (depth + 1) <> 0%Z) by lia. assert (Hp' : (2 <= S p)%nat) by lia.
       destruct (IH _ _ _ _ Hp' Hd' H) as [i [y [E [N L]]]]. exists (S i), y. repeat split; [lia|exact N|exact L].
   - destruct ((b =? 42) && (start <=? p)%nat && (nx =? 47)) eqn:C2.
-    + destruct (wrap_i32 (depth - 1) =? 0)%Z eqn:Z.
+    + destruct (wrap_usize (depth - 1) =? 0)%Z eqn:Z.
       * injection H as <-. exists O, nx. repeat split; [lia|lia].
-      * assert (Hd' : wrap_i32 (depth - 1) <> 0%Z) by lia. assert (Hp' : (2 <= S p)%nat) by lia.
+      * assert (Hd' : wrap_usize (depth - 1) <> 0%Z) by lia. assert (Hp' : (2 <= S p)%nat) by lia.
         destruct (IH _ _ _ _ Hp' Hd' H) as [i [y [E [N L]]]]. exists (S i), y. repeat split; [lia|exact N|exact L].
     + destruct (depth =? 0)%Z eqn:Z; [lia|].
       assert (Hp' : (2 <= S p)%nat) by lia.
